@@ -251,8 +251,13 @@ TTamper ==
   /\ IsEv("tamper") /\ Live
   /\ Ev.target \in TamperTargets /\ Ev.kind \in TamperKinds
   \* (re-validation with the deviation the code is believed to have attributes a rejected line to it)
+  \* "gone": the fetch answered does-not-exist.  In Encrypt.tla every acknowledged plain is in Dom(index) after a
+  \* tampered restart that succeeded (a damaged meta blob makes the restart fail instead), so an acknowledged blob
+  \* that has silently disappeared is tampering that was not detected.
+  /\ Check("an acknowledged blob silently disappeared: the damage was not detected",
+           \A i \in 1..Len(Ev.out) : Ev.out[i][2] # "gone" \/ (Ev.crafted /\ Has("MetaShapedBlobAccepted")))
   /\ Check("a fetch returned bytes that are not the original",
-           \A i \in 1..Len(Ev.out) : Ev.out[i][2] \in SoundOutcomes \/ (Ev.crafted /\ Has("MetaShapedBlobAccepted")))
+           \A i \in 1..Len(Ev.out) : Ev.out[i][2] \in SoundOutcomes \cup {"gone"} \/ (Ev.crafted /\ Has("MetaShapedBlobAccepted")))
   /\ UNCHANGED <<fvars, evars>>
   /\ Mark
 
